@@ -15,6 +15,8 @@ for f in sorted(glob.glob(os.path.join(VERIF, 'seeded', '*', 'meta.json'))):
     else:
       checks.append('%s: not caught (exit %s)' % (c, v['exit']))
   ok = 'yes' if (m.get('suite_passes') and m.get('demo_discriminates')) else 'NO (suite_passes=%s demo=%s)' % (m.get('suite_passes'), m.get('demo_discriminates'))
+  if m.get('later'):
+    checks.append('*later:* ' + m['later'])
   rows.append('| `%s` | %s | %s | %s | %s |' % (m['name'], m['property'], m.get('needs_to_manifest', ''), ok, '<br>'.join(checks)))
 print('| seeded change | breaks | needs, in order to manifest | confirmed (suite passes, demo fails with / passes without) | quick tier of the checks |')
 print('|---|---|---|---|---|')
